@@ -310,9 +310,13 @@ theorem C08_I2_resume_adequate (s : State) :
       ∃ acts, resumeActs s = some acts ∧ acts.contains "WatchAccountSpend" = true) ∧
     Lifecycle.handleStateOpenCalls.contains "WatchAccountSpend" = true ∧
     Lifecycle.handleStateOpenCalls.contains "WatchAccountExpiration" = true ∧
-    Lifecycle.handleConfCalls = ["UpdateAccount", "handleStateOpen"] ∧
-    Lifecycle.watchMatchedAccountsCalls = ["CancelAccountSpend", "CancelAccountConf", "resumeAccount(false,false,0)"] ∧
-    Lifecycle.startCalls = ["resumeAccount(true,false,feeRate)"] := by
+    -- the confirmation handler writes the new state, then arms the watchers of an open account
+    callsBefore Lifecycle.handleConfCalls "UpdateAccount" "handleStateOpen" = true ∧
+    -- a matched account drops its old watchers before it is resumed (not as a restart, not as a recovery)
+    callsBefore Lifecycle.watchMatchedAccountsCalls "CancelAccountSpend" "resumeAccount(false,false,0)" = true ∧
+    callsBefore Lifecycle.watchMatchedAccountsCalls "CancelAccountConf" "resumeAccount(false,false,0)" = true ∧
+    -- start-up resumes every account as a restart
+    Lifecycle.startCalls.contains "resumeAccount(true,false,feeRate)" = true := by
   cases s <;> decide
 
 /-- **I2 after a restart**: when the start-up resumption of the account succeeds, the account is watched for
@@ -465,13 +469,16 @@ example :
 branch of `HandleAccountSpend` completes the batch before resuming; the funding clause writes after
 `SendOutputs` and the recovery clause never reaches `SendOutputs` without `createTx` -/
 theorem C08_I3_call_order :
-    Lifecycle.spendAccountCalls = ["signSpendTx", "UpdateAccount", "maybeBroadcastTx"] ∧
-    (Lifecycle.handleSpendCases =
-      ["expiry:break", "multisig:PendingBatch;MarkBatchComplete;resumeAccount(false,false,0)", "default:return-error"] ∨
-     -- with the other accounts of a batch committed by a spend re-armed (fix of C08/complete-without-rewatch)
-     Lifecycle.handleSpendCases =
-      ["expiry:break", "multisig:PendingBatch;MarkBatchComplete;WatchMatchedAccounts;resumeAccount(false,false,0)",
-       "default:return-error"]) := by
+    -- sign, then write, then publish – and nothing is published before the write
+    callsBefore Lifecycle.spendAccountCalls "signSpendTx" "UpdateAccount" = true ∧
+    callsBefore Lifecycle.spendAccountCalls "UpdateAccount" "maybeBroadcastTx" = true ∧
+    Lifecycle.spendAccountCalls.contains "PublishTransaction" = false ∧
+    -- spends are classified expiry first, then multi-sig, anything else is refused; an expiry spend goes
+    -- straight to the closing write
+    Lifecycle.handleSpendKinds = [("expiry", "break"), ("multisig", "calls"), ("default", "return-error")] ∧
+    -- the multi-sig branch commits the pending batch before it resumes the re-created account
+    callsBefore Lifecycle.handleSpendMultisigCalls "PendingBatch" "MarkBatchComplete" = true ∧
+    callsBefore Lifecycle.handleSpendMultisigCalls "MarkBatchComplete" "resumeAccount(false,false,0)" = true := by
   decide
 
 /-- a closure appends exactly: the write of the pending-closed record carrying the closing transaction,
